@@ -330,13 +330,26 @@ func (w *W) assertCond(c *Term, msg string, pos token.Pos) {
 	}
 	if c.IsTrue() {
 		w.st.ConcreteAsserts++
+		w.oracleHit = false
 		return
 	}
 	if c.IsFalse() {
 		w.st.Obligations++
+		if w.oracleHit {
+			// The assertion negates an engine-only reachability oracle
+			// (zzSharesMutable / zzReachesModuleState: exact object identity
+			// on the symbolic heap) that just answered true. There is no
+			// native observable for it: an engine-level finding. The path
+			// goes on, so that the behavioural assertions that follow can
+			// produce a natively replayable witness as well.
+			w.oracleHit = false
+			w.violation("alias", msg, nil)
+			return
+		}
 		w.violation("assert", msg, nil)
 		panic(pathEnd{endOK, "assertion failed: " + msg})
 	}
+	w.oracleHit = false
 	if w.known(c) {
 		w.st.ImpliedChecks++
 		return
